@@ -7,6 +7,7 @@ import (
 	"fmt"
 	"math/big"
 	"strings"
+	"time"
 )
 
 // C03 — Mode composition truth table. The full grid
@@ -35,13 +36,14 @@ func init() {
 	}, Run: runC03})
 }
 
-const c03rule = "one run = one cell of mode(unset, prefer_ocsp, prefer_crl, ocsp_only, crl_only, disabled) x OCSP outcome(no AIA, good, revoked, unavailable) x aia_strict x CRL outcome(none known, listed, listed in a CONFIGURED list while the certificate names no distribution point, not listed, CDP unavailable, internal failure = the stored record of the listed certificate is undecodable at lookup time) x cdp_strict x storage(memory, disk) x chain shape(EE+CA, EE+intermediate+root, two chains, directly trusted leaf alone: for that shape only the CRL-side rejections are asserted, the CRL signer being configured); oracle: reject iff (ocspOn and (revoked or (unavailable and aia_strict))) or (crlOn and (listed or listed-configured or internal failure or (cdp unavailable and cdp_strict))), plus side effects: disabled => no request and no work_dir operation after Provision, ocsp_only => no CRL origin contacted and work_dir untouched, crl_only => no responder contacted; non-trivial = the expected verdict is reject or a mechanism is disabled by the mode"
+const c03rule = "one run = one cell of mode(unset, prefer_ocsp, prefer_crl, ocsp_only, crl_only, disabled) x OCSP outcome(no AIA, good, revoked, unavailable) x aia_strict x CRL outcome(none known, listed, listed in a CONFIGURED list while the certificate names no distribution point, not listed, CDP unavailable, internal failure = the stored record of the listed certificate is undecodable at lookup time) x cdp_strict x storage(memory, disk) x chain shape(EE+CA, EE+intermediate+root, two chains, directly trusted leaf alone: for that shape only the CRL-side rejections are asserted, the CRL signer being configured); a fixed half of the cells have a past (OCSP caching on, the same certificate presented once before while its responder was down: nothing authentic was obtained, nothing may be remembered); oracle: reject iff (ocspOn and (revoked or (unavailable and aia_strict))) or (crlOn and (listed or listed-configured or internal failure or (cdp unavailable and cdp_strict))), plus side effects: disabled => no request and no work_dir operation after Provision, ocsp_only => no CRL origin contacted and work_dir untouched, crl_only => no responder contacted; non-trivial = the expected verdict is reject or a mechanism is disabled by the mode"
 
 func runC03(h *Harness) {
 	i := h.Idx
 	if h.Tier != "thorough" {
 		i = (h.Idx*3 + h.Idx/256) % c03cells // stride 3 with a drifting offset: all residues of every small dimension occur
 	}
+	cell0 := i
 	mode := c03modes[i%6]
 	i /= 6
 	oc := c03ocsp[i%4]
@@ -58,10 +60,18 @@ func runC03(h *Harness) {
 	sc := h.R.Scenario
 	sc["mode"], sc["ocsp"], sc["aia_strict"], sc["crl"], sc["cdp_strict"], sc["storage"], sc["chain"] = mode, oc, aiaStrict, cr, cdpStrict, storage, chainShape
 
+	// half of the cells (a fixed, hash-chosen half) have a PAST: OCSP caching is on and the same certificate was
+	// presented once before while its responder was unreachable. Nothing authentic was obtained then, so nothing may
+	// be remembered: the verdict of the cell's handshake is the table's.
+	withPast := mix64(0xc03, "past", uint64(cell0))%2 == 1
+	sc["past"] = withPast
 	w := NewWorld(h, WorldOpts{Intermediate: chainShape != "ee-ca"})
 	loc := w.NewLocation(LocOpts{Name: "L1", URL: "http://crl.sim/a.crl", Issuer: w.A, NVers: 1, Extra: 2, Width: 8})
 	resp := w.NewResponder("http://ocsp.sim/a", w.A)
 	cfg := NodeCfg{Mode: mode, Storage: storage, UpdateInterval: "10m", CDPStrict: cdpStrict, AIAStrict: aiaStrict}
+	if withPast {
+		cfg.OCSPCache = "10m"
+	}
 	if chainShape == "leaf-only" {
 		// the client certificate itself is in the trust pool: the verified chain holds nothing but the leaf, so the
 		// CRL's signer can only come from the configuration
@@ -142,6 +152,14 @@ func runC03(h *Harness) {
 	}
 	if chainShape == "leaf-only" {
 		chains = [][]*x509.Certificate{{cert}}
+	}
+	if withPast && len(aia) > 0 {
+		st, status := resp.State, resp.Status
+		resp.State = oDown
+		h.Handshake(n, "past", chains)
+		h.Quiesce()
+		h.Settle(3 * time.Second)
+		resp.State, resp.Status = st, status
 	}
 	hs := h.Handshake(n, "hs", chains)
 	h.Quiesce()
